@@ -449,6 +449,31 @@ def graphRoundtrip [DecidableEq V] (C : Codecs V P) (s : Sliver V) : Except Err 
     | .error e => .error e
     | .ok g' => buildDeep C g' 5 s.kind ((s.nodeId).getD "")
 
+mutual
+/-- every element of a tree (pre-order), each with the node id and kind of the element that contains it -/
+def elems : Option (String × Kind) → Sliver V → List (Option (String × Kind) × Sliver V)
+  | p, .mk k nid f ks => (p, .mk k nid f ks) :: elemsKids (nid.getD "", k) ks
+def elemsKids (p : String × Kind) : List (Sliver V) → List (Option (String × Kind) × Sliver V)
+  | [] => []
+  | c :: cs => elems (some p) c ++ elemsKids p cs
+end
+
+/-- the writing half of `graphRoundtrip` -/
+def graphWrite (C : Codecs V P) (s : Sliver V) : Except Err (AGraph P) :=
+  let g0 : Except Err (AGraph P) :=
+    if s.kind = "component" then addNode AGraph.empty none "c02-parent" "NetworkNode" "has" Props.empty else .ok AGraph.empty
+  match g0 with
+  | .error e => .error e
+  | .ok g => addSliver C g (if s.kind = "component" then some "c02-parent" else none) s
+
+/-- the tree written into a fresh graph, then `build_deep_<kind>_sliver` **started at every element of it** (the
+sub-interface itself, a service below a component, ...): what `Interface.get_sliver()` / `Component.get_sliver()` /
+`build_deep_*_sliver(node_id=<inner id>)` do on a live model -/
+def graphAt [DecidableEq V] (C : Codecs V P) (s : Sliver V) : Except Err (List (Sliver V × Except Err (Sliver V))) :=
+  match graphWrite C s with
+  | .error e => .error e
+  | .ok g' => .ok ((elems none s).map fun e => (e.2, buildDeep C g' 5 e.2.kind (e.2.nodeId.getD "")))
+
 end graph
 
 /-! ### concrete values for the driver -/
